@@ -18,7 +18,7 @@ LEVEL = 'model_checking'
 TECHNIQUE = 'bounded-exhaustive enumeration of flag vectors x A_V-range classes x laws x formats through the real Fitter, judged on objective values against an lstsq reference'
 LEVEL_TEXT = ('Every flag vector in {0,1,2,3,4,9}^n (n<=3 quick, n<=5 thorough) with a non-singular regression, crossed with photometry sets, '
               'model grids (with an exact duplicate and a reddened+scaled copy), six A_V ranges placed so that every model is interior / clamped low / '
-              'clamped high / pinned (lo==hi), three extinction laws (one with k=0 bands, one also tabulated in nm / m^2/kg) and four package/load variants, is fitted by the '
+              'clamped high / pinned (lo==hi), three extinction laws (one with k=0 bands, one also tabulated in nm / m^2/kg) and four package/load variants, plus grids of 300 (thorough 700) models with eight flag vectors, is fitted by the '
               'real Fitter on real package files; for every model the reported (A_V, scale) must reach the constrained optimum of the stated '
               'objective (computed by QR/SVD least squares, not the normal equations), lie in range, and chi^2 must equal the objective plus '
               'limit penalties evaluated at the reported parameters.')
@@ -31,12 +31,13 @@ RULE = ("cases: fitter configurations (grid, law, A_V range, format/memmap/filte
         "fits with condition number <= 1e4")
 ASSUMPTIONS = ["finite value alphabets for real-valued inputs (see DESIGN.md section 0)",
                "condition number of the regression <= 1e4", "limits closer than 1e-9 dex to the fitted model are ambiguous"]
-REQUIRED_CLASSES = ['integer-typed-photometry', 'convolved-files-in-Jy', 'band-on-last-node-of-law', 'gzipped-convolved-files', 'law-in-other-unit', 'two-limits-different-confidence', 'av-interior', 'av-clamped-lo', 'av-clamped-hi', 'av-pinned', 'no-limit', 'limit-satisfied', 'limit-violated',
+REQUIRED_CLASSES = ['grid-of-hundreds-of-models', 'integer-typed-photometry', 'convolved-files-in-Jy', 'band-on-last-node-of-law', 'gzipped-convolved-files', 'law-in-other-unit', 'two-limits-different-confidence', 'av-interior', 'av-clamped-lo', 'av-clamped-hi', 'av-pinned', 'no-limit', 'limit-satisfied', 'limit-violated',
                     'limit-violated-conf1', 'k0-band-fitted', 'duplicate-model-tied', 'float32-path', 'flag4-fitted', 'negative-range']
 TIMEOUT = {'quick': 300, 'thorough': 1800}
 
 RANGES = [(0.0, 40.0), (0.0, 0.0), (2.5, 2.5), (5.0, 7.0), (-3.0, -1.0), (0.0, 1.0)]
 VARIANTS = [('v1', False, False), ('v2', True, False), ('v2', False, False), ('v2', True, True), ('v1gz', False, False), ('v1Jy', False, False)]   # fmt (gz: gzipped convolved files), memmap, filters given as wavelengths
+BIG_FLAGS = [(1, 1, 1, 1, 1), (1, 4, 1, 3, 2), (4, 4, 4, 4, 4), (1, 0, 9, 1, 1), (3, 1, 1, 1, 2), (1, 1, 0, 0, 4), (2, 2, 1, 1, 1), (1, 3, 1, 3, 1)]
 BANDSETS = {2: ['B1', 'B3'], 3: ['B1', 'B3', 'B5'], 4: ['B1', 'B2', 'B4', 'B5'], 5: ['B1', 'B2', 'B3', 'B4', 'B5']}
 
 
@@ -60,6 +61,10 @@ def setup(tier, seed):
         if n == 4 and g == 2:
             continue
         cfgs.append({'grid': g, 'law': law, 'range': ir, 'variant': iv, 'n': n})
+    # scale: grids of a few hundred models (row indices beyond 127 and 255, names filling the 30-character column), five bands
+    for iv in ((0, 1) if tier == 'quick' else (0, 1, 2, 3)):
+        for ir in ((0, 5) if tier == 'quick' else (0, 3, 4, 5)):
+            cfgs.append({'grid': 0, 'law': 'power', 'range': ir, 'variant': iv, 'n': 5, 'big': 300 if tier == 'quick' else 700})
     return {'tier': tier, 'seed': seed, 'cfgs': cfgs, 'psets': 4 if tier == 'quick' else 8}
 
 
@@ -80,9 +85,12 @@ def run_case(ctx, case, rec, d):
     law = case['law']
     fmt, memmap, bywav = VARIANTS[case['variant']]
     avlo, avhi = RANGES[case['range']]
-    flux_all = fc.grid2d(seed * 10 + case['grid'], n_models=6, law=law, bands=fc.ALL_BANDS, special=True)
+    n_models = case.get('big', 6)
+    flux_all = fc.grid2d(seed * 10 + case['grid'], n_models=n_models, law=law, bands=fc.ALL_BANDS, special=True)
     cols = [fc.ALL_BANDS.index(b) for b in bands]
-    names = fc.names_for(6)
+    names = fc.names_for(n_models)
+    if n_models > 256:
+        rec.cls('grid-of-hundreds-of-models')
     spec = {'fmt': fmt.replace('gz', '').replace('Jy', ''), 'conv_unit': 'Jy' if fmt.endswith('Jy') else 'mJy', 'names': names, 'bands': fc.ALL_BANDS, 'flux': flux_all, 'flat_single': (case['grid'] % 2 == 0), 'gz': fmt.endswith('gz')}
     if fmt.endswith('gz'):
         rec.cls('gzipped-convolved-files')
@@ -103,10 +111,11 @@ def run_case(ctx, case, rec, d):
         rec.cls('band-on-last-node-of-law')
     cfg_key = (case['grid'], law, case['range'], case['variant'], n)
     first = True
-    for fv in fc.flag_vectors(n, need_fitted=2):
+    fvs = BIG_FLAGS if 'big' in case else fc.flag_vectors(n, need_fitted=2)
+    for fv in fvs:
         fitted = [j for j, v in enumerate(fv) if v in (1, 4)]
         for ps in range(ctx['psets']):
-            planted = (ps + sum(fv)) % 6
+            planted = (ps + sum(fv)) % 6 if n_models == 6 else (ps * 97 + sum(fv) * 31) % n_models
             a0 = [1.2, 0.0, 6.0, -2.0][ps % 4]
             base = flux_all[planted, cols] * 10 ** (a0 * k) * [7.0, 0.01, 300.0, 1.0][(ps // 2) % 4]
             rng_ps = ps if ps < 4 else ps + seed * 4         # the upper half of the photometry sets moves with the seed
